@@ -192,6 +192,10 @@ func matrix(specs []srvSpec) []cell {
 									other = tlsSettings[1]
 								}
 							}
+							wrap := []op{}
+							if (si+ti+force)%2 == 1 {
+								wrap = []op{{K: "wrap"}} // transport middleware: a clone's chain must end in the CLONE's round trip
+							}
 							var ops []op
 							pk := 0
 							companion := false
@@ -209,8 +213,12 @@ func matrix(specs []srvSpec) []cell {
 									[]op{{K: "force", N: force}}, reqs(1))
 							case "clone-reconfig":
 								// the original already carries non-default settings and connections; the clone is re-configured
-								ops = cat(tlsOps(setter, other.T, nil), po, reqs(1), []op{{K: "clone"}},
-									tlsOps(setter, ts.T, &other.T), reqs(2))
+								f1 := []op{}
+								if len(wrap) > 0 && force != 3 {
+									f1 = []op{{K: "force", N: (force + 1) % 3}} // the clone also forces another version
+								}
+								ops = cat(tlsOps(setter, other.T, nil), wrap, po, reqs(1), []op{{K: "clone"}},
+									tlsOps(setter, ts.T, &other.T), f1, reqs(2))
 							case "usertls":
 								// the caller brings his own TLS for HTTP/1 and HTTP/2 (documented bypass of TLSClientConfig;
 								// HTTP/3 stays under the client's settings): protocol selection must still hold, TCP
@@ -344,9 +352,9 @@ func matrix(specs []srvSpec) []cell {
 										cl.F = origActs[2] // same, in the other direction
 									}
 								}
-								ops = cat(tlsOps(setter, ts.T, nil), po, []op{cl}, reqs(3))
+								ops = cat(wrap, tlsOps(setter, ts.T, nil), po, []op{cl}, reqs(3))
 							case "clone-then-config":
-								ops = cat(po, reqs(1), []op{{K: "clone"}}, tlsOps(setter, ts.T, nil), reqs(2))
+								ops = cat(po, wrap, reqs(1), []op{{K: "clone"}}, tlsOps(setter, ts.T, nil), reqs(2))
 							case "changed":
 								// start from another setting, use the client, then move to the target setting
 								ops = cat(tlsOps(setter, other.T, nil), po, reqs(2), tlsOps(setter, ts.T, &other.T),
@@ -425,7 +433,7 @@ func matrix(specs []srvSpec) []cell {
 				if force == 3 && !h3 {
 					continue
 				}
-				for _, h2c := range []string{"off", "on", "on-off", "on-clone"} {
+				for _, h2c := range []string{"off", "on", "on-off", "on-clone", "on-req-off", "on-req-off-on"} {
 					var pre []op
 					switch h2c {
 					case "on":
@@ -436,6 +444,13 @@ func matrix(specs []srvSpec) []cell {
 						pre = []op{{K: "h2c", B: true}}
 					}
 					ops := cat(pre, protoOps(force, h3 && force != 3, true))
+					switch h2c {
+					case "on-req-off": // a pooled cleartext h2 connection exists when h2c is switched off
+						ops = cat([]op{{K: "h2c", B: true}}, protoOps(force, h3 && force != 3, true), reqs(2), []op{{K: "h2c"}}, reqs(1))
+					case "on-req-off-on":
+						ops = cat([]op{{K: "h2c", B: true}}, protoOps(force, h3 && force != 3, true), reqs(1), []op{{K: "h2c"}}, reqs(1),
+							[]op{{K: "clone"}, {K: "h2c", B: true}}, reqs(1), []op{{K: "h2c"}})
+					}
 					if h2c == "on-clone" {
 						ops = cat(ops, reqs(1), []op{{K: "clone"}})
 					}
@@ -476,7 +491,11 @@ func randomWalk(rng *hk.Rand, specs []srvSpec) cell {
 		case k < 11:
 			ops = append(ops, op{K: "force", N: rng.Intn(4)})
 		case k < 12:
-			ops = append(ops, op{K: "h3"})
+			if rng.Chance(40) {
+				ops = append(ops, op{K: "wrap"})
+			} else {
+				ops = append(ops, op{K: "h3"})
+			}
 		case k < 13:
 			if rng.Chance(50) {
 				cl := op{K: "clone"}
@@ -631,6 +650,9 @@ func run(r *hk.Run) {
 			for _, c := range fast {
 				if strings.HasPrefix(c.Shape, "https-h2c-") && rng.Chance(12) {
 					cells = append(cells, c)
+				}
+				if strings.HasPrefix(c.Shape, "plain-f2") && strings.Contains(c.Shape, "h2c-on-req-off") && rng.Chance(60) {
+					cells = append(cells, c) // h2c switched off while a pooled cleartext h2 connection exists
 				}
 				if strings.HasPrefix(c.Shape, "samehost-") && rng.Chance(40) {
 					cells = append(cells, c)
